@@ -29,7 +29,7 @@ ASSUMPTIONS = [
     "all load-driver hosts have the coordinator's core count (Rally assumes the same)",
     "bounded message delay (<= 7 s) and wake-up lateness (<= 0.125 s)",
 ]
-BUDGET = {"quick": 700, "thorough": 5000}
+BUDGET = {"quick": 1000, "thorough": 6000}
 REQUIRED_CLASSES = {"multi-worker": 200, "completed-by-broadcast": 50, "delay>=2s": 150, "over-committed": 50}
 TOL = 1e-5  # timedelta arithmetic inside Rally rounds to microseconds
 
@@ -164,7 +164,7 @@ def check_race(case, r, obs, expect_success=True):
             obs.check(finished, "any-nobody-finished", f"element {el_i}: no client ran its full specification")
     # ---- 3 completed-by bound
     wake = 0.5 if case.get("test_mode") else 5.0
-    max_delay = max(sim_race.DELAYS[d % len(sim_race.DELAYS)] for d in case["delays"])
+    max_delay = max(sim_race.DELAYS[d % len(sim_race.DELAYS)] for d in list(case["delays"]) + list((case.get("delay_overrides") or {}).values()))
     broadcast = any(m[4] == "CompleteCurrentTask" for m in r.rt.message_log)
     for el_i, el in enumerate(schedule):
         if "parallel" not in el or not el.get("completed_by"):
@@ -194,7 +194,8 @@ def check_race(case, r, obs, expect_success=True):
                 continue
             t_star = max(q["t_exit"] for q in ends[cb])
             others = [q for t, qs in ends.items() if t != cb for q in qs]
-        bound = t_star + 2 * (wake + 0.125) + 2 * max_delay + 2 * longest + 2.0
+        pre = max([sim_race.PREEMPT[i % len(sim_race.PREEMPT)] for i in (case.get("preempt") or [0])])
+        bound = t_star + 2 * (wake + 0.125) + 2 * max_delay + 2 * longest + 2.0 + 10 * pre
         late = [q for q in others if q["t_enter"] > bound]
         obs.check(
             not late,
